@@ -34,7 +34,7 @@ import random
 from harness import data, detrt, pipeline, tlc
 from harness.yawenv import scratch
 
-INVS = ["TypeOK", "ExactOnSuccess", "FailStop", "UntouchedWithoutOverwrite", "OnlyCatalogsDeleted", "NoOpenableDirAfterFailure"]
+INVS = ["TypeOK", "BufferedOrWritten", "ExactOnSuccess", "FailStop", "UntouchedWithoutOverwrite", "OnlyCatalogsDeleted", "NoOpenableDirAfterFailure"]
 DEVIATIONS = {
     "FinalizeOnException": "NoOpenableDirAfterFailure",
     "NoSentinelOnError": "deadlock",
@@ -46,11 +46,11 @@ DEVIATIONS = {
 
 def base_consts(quick):
     return dict(MaxL=4 if quick else 5, MaxCS=3, Ws="{1, 2, 3}", Pres='{"absent", "old", "foreign", "file", "noparent"}',
-                Faults="{0, 1, 2}" if quick else "{0, 1, 2, 3}", Wheres='{"reader", "worker", "writer"}', Kills='{"none", "init", "get"}')
+                Faults="{0, 1, 2}" if quick else "{0, 1, 2, 3}", Wheres='{"reader", "worker", "writer"}', Kills='{"none", "init", "get"}', BufSizes="{0}" if quick else "{0, 2}")
 
 
 def cfg_key(c):
-    return (c["L"], c["CS"], c["W"], str(c["Pre"]), bool(c["Ow"]), c["FaultChunk"], bool(c["EmptyCentre"]), str(c["Where"]), str(c["Kill"]))
+    return (c["L"], c["CS"], c["W"], str(c["Pre"]), bool(c["Ow"]), c["FaultChunk"], bool(c["EmptyCentre"]), str(c["Where"]), str(c["Kill"]), c["Buf"])
 
 
 def model(ctx):
@@ -168,19 +168,19 @@ def run(ctx) -> None:
     # stratify: every (W-class, Pre, Ow, fault?, empty) class at least twice
     buckets = {}
     for k in keys:
-        L, CS, W, pre, ow, fc, ec, wh, kl = k
+        L, CS, W, pre, ow, fc, ec, wh, kl, bs = k
         # chunk position of the fault: none / first / middle / last
         nc = -(-L // CS)
         pos = "none" if not fc else ("only" if nc == 1 else "first" if fc == 1 else "last" if fc == nc else "middle")
-        buckets.setdefault((min(W, 2), pre, ow, pos if wh != "reader" or pre == "absent" else min(fc, 1), ec, wh, kl), []).append(k)
+        buckets.setdefault((min(W, 2), pre, ow, pos if wh != "reader" or pre == "absent" else min(fc, 1), ec, wh, kl, bs), []).append(k)
     per = 2 if quick else 8
     chosen = [k for b in buckets.values() for k in b[:per]]
     with scratch("c09_") as root:
         n = 0
         traces, metas, tinfo = [], [], []
         for k in chosen:
-            L, CS, W, pre, ow, fc, ec, wh, kl = k
-            c = dict(L=L, CS=CS, W=W, Pre=pre, Ow=ow, FaultChunk=fc, EmptyCentre=ec, Where=wh, Kill=kl)
+            L, CS, W, pre, ow, fc, ec, wh, kl, bs = k
+            c = dict(L=L, CS=CS, W=W, Pre=pre, Ow=ow, FaultChunk=fc, EmptyCentre=ec, Where=wh, Kill=kl, Buf=bs)
             variants = [("apply", None)]
             if fc and wh != "reader":
                 variants = [("apply", "injected_" + wh)] + ([("divide", "injected_" + wh)] if not ec else [])
@@ -196,7 +196,7 @@ def run(ctx) -> None:
                     n += 1
                     kill = None if kl == "none" else "init" if kl == "init" else ("get", rng.randrange(0, -(-L // CS) * W + 2))
                     res = pipeline.run_creation(yaw, root / f"r{n}", L=L, CS=CS, W=W, pre=pre, overwrite=ow, fault=fault,
-                                                fault_chunk=fc, empty_centre=ec, mode=mode, seed=rng.randrange(1 << 30), where=wh, kill=kill)
+                                                fault_chunk=fc, empty_centre=ec, mode=mode, seed=rng.randrange(1 << 30), where=wh, kill=kill, buf=bs)
                     exp_new = pipeline.expected_records(pipeline.input_frame(L), ec)
                     proj = classify(yaw, c, res, exp_new)
                     ctx.evaluated(1, (k, mode, fault, s) if (fc or ec or pre != "absent" or W > 1) else None)
@@ -211,7 +211,7 @@ def run(ctx) -> None:
         trace_validation(ctx, traces, metas, tinfo)
         # depth-first over ALL schedules of the smallest multiprocessing scenarios
         for (L, CS, W, fc, wh) in [(2, 1, 2, 0, "reader"), (2, 1, 2, 2, "reader"), (3, 2, 2, 1, "reader"), (2, 1, 2, 2, "worker"), (2, 1, 2, 1, "writer")]:
-            c = dict(L=L, CS=CS, W=W, Pre="absent", Ow=False, FaultChunk=fc, EmptyCentre=False, Where=wh, Kill="none")
+            c = dict(L=L, CS=CS, W=W, Pre="absent", Ow=False, FaultChunk=fc, EmptyCentre=False, Where=wh, Kill="none", Buf=0)
             count = {"n": 0}
 
             def once(ch, c=c, fc=fc, wh=wh):
